@@ -31,7 +31,9 @@ fn part_a(a: &Args, out: &mut Out, rng: &mut Rng) {
     let cfg = if a.thorough() { SpaceCfg { g1_max_n: 3, g1_rate: 0.25, random_d4: 1500, random_c2d: 800, max_n: 6, min_n: 2 } } else { SpaceCfg { g1_max_n: 2, g1_rate: 1.0, random_d4: 260, random_c2d: 120, max_n: 6, min_n: 2 } };
     let mut r2 = rng.fork();
     for_each_model(&cfg, rng, |file, tt| {
-        let Ok(d0) = load(file) else { return };
+        let Ok(mut d0) = load(file) else { return };
+        // the whole battery once before any edit (whatever it memoises must not survive an edit); the edits work on clones of that instance
+        if tt.count() > 0 { let mut r0 = r2.fork(); if let Some((req, got, wanted)) = battery(&mut d0, tt, &mut r0).first() { out.fail("query-after-load", &file.text(), req, got, wanted); return; } }
         let n = tt.n as i32;
         let mut units: Vec<i32> = Vec::new();
         for v in 1..=n { units.push(v); units.push(-v); }
@@ -145,6 +147,8 @@ fn part_b(a: &Args, out: &mut Out, rng: &mut Rng) {
         // the Lean machine (Model/EditCnf.lean) follows the same history: stored clause list after loading ...
         out.query("ecinit", &format!("{} | {}", n, cls.iter().map(|c| c.iter().map(|l| l.to_string()).collect::<Vec<_>>().join(" ")).collect::<Vec<_>>().join(" / ")), &fmt_stored(&d.inter_graph.cnf_clauses));
         let mut ec_live = true;
+        // the whole battery once before the first edit (whatever it memoises must not survive an edit)
+        { let mut r0 = rng.fork(); if let Some((req, got, wanted)) = battery(&mut d, &cnf_tt(n, &cls), &mut r0).first() { out.fail("query-after-load", &text, req, got, wanted); continue; } }
         let mut cur_n = n;
         let mut cur_tt = cnf_tt(n, &cls);
         let mut hist: Vec<String> = Vec::new();
